@@ -3,6 +3,7 @@ package chk
 import (
 	"fmt"
 	"go/token"
+	"go/types"
 
 	"golang.org/x/tools/go/ssa"
 )
@@ -238,7 +239,85 @@ func ruleFragmentSweep(p *Prog, l *Ledger, tier string) {
 			l.Fail(rule, name, key, loopPos(p, li), fmt.Sprintf("%s: the loop at %s inserts into the list but stops at %s, a bound computed before the loop: the cues that the insertions push beyond it are not visited in this pass, so a boundary is not cut in them", name, loopPos(p, li), bad))
 		}
 	}
+	// (d) the list installed by one trip of the sweep is not the buffer the next trip refills while
+	// reading it: s.Items = buf with buf = buf[:0] reused across trips makes the range over s.Items
+	// and the appends into buf walk the same array; with two elements appended for one element read
+	// (a cue that is cut) the writes overtake the reads and the cue that follows is overwritten
+	for _, b := range fn.Blocks {
+		for _, ins := range b.Instrs {
+			st, ok := ins.(*ssa.Store)
+			if !ok {
+				continue
+			}
+			if t, fld := fieldOfAddr(st.Addr); t != "Subtitles" || fld != "Items" {
+				continue
+			}
+			reset, grow2 := bufferReuse(st.Val, map[ssa.Value]bool{})
+			if reset == nil {
+				continue
+			}
+			// reset is buf[:0] with buf carried round a loop that also contains this store
+			carried := false
+			if ph, ok := reset.X.(*ssa.Phi); ok {
+				for _, li := range loops {
+					if li.header == ph.Block() && li.blocks[b] {
+						carried = true
+					}
+				}
+			}
+			if !carried {
+				continue
+			}
+			key := l.Key(rule, name, "buffer-reuse", "")
+			if grow2 {
+				l.Fail(rule, name, key, p.Pos(st.Pos()), fmt.Sprintf("%s installs as the cue list a buffer that the next trip of the sweep empties (%s) and refills while it ranges over that same list, and some trip appends two elements for one element read: the writes overtake the reads, so the cue that follows a cut one is overwritten before it is visited", name, p.Pos(reset.Pos())))
+			} else {
+				l.Prove(rule, name, key, p.Pos(st.Pos()), "the reused buffer receives at most one element per element read: writes never overtake reads")
+			}
+		}
+	}
 	l.Min(rule, len(windowPhis)+1, 2)
+}
+
+// bufferReuse follows v back through appends and phis: the x[:0] reset it grows from (nil if none),
+// and whether some append on the way adds two or more elements at once.
+func bufferReuse(v ssa.Value, seen map[ssa.Value]bool) (*ssa.Slice, bool) {
+	if seen[v] {
+		return nil, false
+	}
+	seen[v] = true
+	switch x := v.(type) {
+	case *ssa.Slice:
+		if x.Low == nil && x.High != nil {
+			if c, ok := constInt(x.High); ok && c == 0 {
+				return x, false
+			}
+		}
+	case *ssa.Call:
+		if bi, ok := x.Call.Value.(*ssa.Builtin); ok && bi.Name() == "append" {
+			r, g := bufferReuse(x.Call.Args[0], seen)
+			if sl, ok := x.Call.Args[1].(*ssa.Slice); ok {
+				if al, ok := sl.X.(*ssa.Alloc); ok {
+					if at, ok := al.Type().(*types.Pointer).Elem().Underlying().(*types.Array); ok && at.Len() >= 2 {
+						g = true
+					}
+				}
+			}
+			return r, g
+		}
+	case *ssa.Phi:
+		var r *ssa.Slice
+		g := false
+		for _, e := range x.Edges {
+			r2, g2 := bufferReuse(e, seen)
+			if r2 != nil {
+				r = r2
+			}
+			g = g || g2
+		}
+		return r, g
+	}
+	return nil, false
 }
 
 // maxScanOverItems: ph is the exit value of a loop that keeps the larger of ph and a cue's EndAt.
